@@ -701,3 +701,41 @@ M("m3-gt-lt-swapped", "C08", "fire M3", "src/compile.rs",
                 circuit.push_and(not_lt_min, not_gt_max)
             }
             PatternEnum::Tuple(fields) => {""", "signed ranges compare with the wrong comparator output")
+
+# ---------------------------------------------------------------- C04
+M("o1-sweep-skips-y", "C04", "fire O1", "src/circuit.rs",
+  """            *x = shift_gate_index_if_necessary(*x);
+            *y = shift_gate_index_if_necessary(*y);""",
+  """            *x = shift_gate_index_if_necessary(*x);
+            *y = shift_gate_index_if_necessary(*x);""", "second operands are overwritten with the shifted first operand")
+M("o1-final-xor-unshifted", "C04", "fire O1", "src/circuit.rs",
+  """                    let x = shift_gate_index_if_necessary(x);
+                    let y = shift_gate_index_if_necessary(y);
+                    Gate::Xor(x, y)""",
+  """                    let x = shift_gate_index_if_necessary(x);
+                    Gate::Xor(x, y)""", "second XOR operand keeps the builder numbering")
+M("o1-final-and-swapped-source", "C04", "fire O1", "src/circuit.rs",
+  """                let x = shift_gate_index_if_necessary(x);
+                let y = shift_gate_index_if_necessary(y);
+                Gate::And(x, y)""",
+  """                let x = shift_gate_index_if_necessary(x);
+                let y = shift_gate_index_if_necessary(x);
+                Gate::And(x, y)""", "AND gates become x & x")
+M("o2-not-only-first-position", "C04", "fire O2", "src/circuit.rs",
+  """                } else if y == 1 {
+                    let x = shift_gate_index_if_necessary(x);
+                    Gate::Not(x)
+                } else {""",
+  """                } else {""", "xor(x, 1) is emitted as an XOR with the constant-true wire (still correct but the NOT encoding is incomplete)")
+M("o3-mux-depends-on-switch", "C04", "fire O3", "src/circuit.rs",
+  """        if x0 == x1 {
+            return x0;
+        }
+        let x0_xor_x1 = self.push_xor(x0, x1);""",
+  """        if x0 == x1 {
+            return x0;
+        }
+        if !self.opts.cache_gates && s == 1 {
+            return x0;
+        }
+        let x0_xor_x1 = self.push_xor(x0, x1);""", "with de-duplication off a different request sequence is made")
